@@ -479,9 +479,30 @@ def border_history(ctx, mon, rng):
     mon.shadows.clear()
 
 
+def packed_cell_history(ctx, mon, rng):
+    """Many short or closed paths whose two ends share one grid cell with a high number (fine
+    grids have cells numbered above 256), removed and queried in turn."""
+    bins = rng.choice((17, 20, 24, 33))
+    size = 100.0
+    verts = [[[0.0, 0.0], [size, size]]]
+    cx, cy = rng.uniform(0.55, 0.97) * size, rng.uniform(0.55, 0.97) * size       # upper-right: cell number high
+    w = size / bins * 0.2
+    for _ in range(rng.randint(3, 9)):
+        a = [cx + rng.uniform(-w, w), cy + rng.uniform(-w, w)]
+        b = list(a) if rng.random() < 0.5 else [a[0] + rng.uniform(-w, w) * 0.5, a[1] + rng.uniform(-w, w) * 0.5]
+        verts.append([a, b])
+    for _ in range(rng.randint(0, 4)):
+        verts.append([[rng.uniform(0, size), rng.uniform(0, size)], [rng.uniform(0, size), rng.uniform(0, size)]])
+    one_history(ctx, "short / closed paths packed into one high-numbered cell", verts, bins, rng.random() < 0.8,
+                rng.choice(("tour", "random", "cell-emptying")))
+    mon.shadows.clear()
+
+
 def run(ctx):
     mon = install(ctx)
     rng = ctx.rng
+    for _ in range(ctx.budget(400, 6_000)):
+        packed_cell_history(ctx, mon, rng)
     for _ in range(ctx.budget(3_000, 40_000)):
         border_history(ctx, mon, rng)
     n = ctx.budget(1_500, 25_000)
@@ -489,7 +510,7 @@ def run(ctx):
         if not ctx.alive():
             break
         cls, verts = gen_vertices(rng)
-        bins = rng.choice((1, 2, 3, 3, 4, 5, 7, 16))
+        bins = rng.choice((1, 2, 3, 3, 4, 5, 7, 16, 17, 20, 33))
         reverse = rng.random() < 0.5
         mode = rng.choice(("tour", "tour", "random", "cell-emptying"))
         if len(verts) <= 5:
@@ -498,7 +519,8 @@ def run(ctx):
         mon.shadows.clear()
     for cls in ("lattice coordinates", "continuous coordinates", "clustered",
                 "all starts on one line (zero extent on one axis)", "closed paths (start == end)",
-                "bins=1", "bins=2", "bins=3", "bins=4", "bins=5", "bins=7", "bins=16",
+                "bins=1", "bins=2", "bins=3", "bins=4", "bins=5", "bins=7", "bins=16", "bins=17", "bins=20", "bins=33",
+                "short / closed paths packed into one high-numbered cell",
                 "reverse=True", "reverse=False", "removals:tour", "removals:random",
                 "removals:cell-emptying", "query inside the grid", "query at an existing end",
                 "query far outside", "query on the grid border", "query on a cell border",
